@@ -271,6 +271,19 @@ PROPS = {
         assumptions=["the Safari regex subset is the harness's reading of Apple's content-blocker documentation (., [a-b], ?+*, groups, ^ at start, $ at end, no | {} or class escapes)"],
         floors=(50_000, 20_000, 1_500_000, 300_000),
     ),
+    "C12": simple(
+        rule="two generators. plain: scheme (12 incl. unsupported and upper-case) x optional userinfo x host from a hand-written table of 19 hosts "
+             "with known normalised form and registrable domain (multi-label and private public suffixes, unknown TLDs, IDN, IPv4, IPv6, "
+             "localhost; optional trailing dot) x port x path/query/fragment incl. non-ASCII, control characters, backslashes; source from the "
+             "same table, absent or unparseable; all checks of (b) and (c) apply. mutated: 1-3 random insertions of hostile characters "
+             "(multi-byte, case-mapping, separators, controls, percent escapes) / deletions / duplications at random char boundaries of such URLs; "
+             "totality plus the consistency checks (hostname is the host component of the normalised URL and ASCII, scheme classification, "
+             "websocket forcing, unsupported => default verdict, preparsed equivalence). non-trivial = URL parses and the source URL parses "
+             "(plain) / URL parses (mutated); distinct = hash of (url, source, type).",
+        assumptions=["third-party ground truth comes from the hand-written table (lower-case hosts; the quantifier does not range over case)",
+                     "for malformed authorities (stray brackets, tabs, backslashes) only totality and field consistency are judged"],
+        floors=(1_500_000, 300_000, 20_000_000, 400_000),
+    ),
 }
 
 # ---------------------------------------------------------------------------------------------
@@ -412,6 +425,14 @@ MANIFEST_TEXT = {
         "note": "filters_used and implication use the code under test on single rules as a metamorphic reference.",
         "technique": "runtime monitoring: totality under catch_unwind + output well-formedness monitors + metamorphic single-rule comparison",
         "design_ref": "DESIGN.md §4.20",
+    },
+    "C12": {
+        "text": "Runtime monitor on request construction: totality under a panic catcher over mutated URL strings, and for URLs that parse an "
+                "independent host extractor, a hand-written registrable-domain table, scheme classification rules and a preparsed-vs-new "
+                "differential (fields, tokens and verdicts on a battery engine). Thorough repeats a sample under AddressSanitizer.",
+        "note": "PSL ground truth is limited to the table's hosts; the url crate is a second opinion on the plain sub-domain only.",
+        "technique": "runtime monitoring: totality + reference extraction/classification + differential between two constructors",
+        "design_ref": "DESIGN.md §4.12",
     },
 }
 
